@@ -30,7 +30,7 @@ def apply_mask(cores, R, indices):
     for i in range(d):
         result = tn.einsum('ij,jik->ik',result,cores[i][:,indices[:,i],:])
 
-    return tn.squeeze(result)
+    return tn.squeeze(result, 1)
 
 
 def dense_matvec(cores, other):
